@@ -21,6 +21,7 @@ var c05Table = TableSpec{Name: "T", IsRoot: true, Cols: []ColSpec{
 	{Name: "n", Type: ColType{Kind: "atom", Key: "integer", Min: 1, Max: 1}},
 	{Name: "tag", Type: ColType{Kind: "opt", Key: "string", Min: 0, Max: 1}},
 	{Name: "x", Type: ColType{Kind: "opt", Key: "integer", Min: 0, Max: 1}},
+	{Name: "t2", Type: ColType{Kind: "opt", Key: "string", Min: 0, Max: 1}}, // a second optional of the type of "tag"
 	{Name: "m", Type: ColType{Kind: "map", Key: "string", Val: "string", Min: 0, Max: -1}},
 	{Name: "s", Type: ColType{Kind: "set", Key: "string", Min: 0, Max: -1}},
 }}
@@ -57,9 +58,9 @@ func indexName(cols []CKey) string {
 }
 
 // {"s"}, {"name","s"}, ck("s"), ck("m"): a set or a map column used whole (its value is unordered)
-var schemaIndexChoices = [][]string{{"name"}, {"n"}, {"name", "n"}, {"tag"}, {"tag", "x"}, {"name", "tag"}, {"x"}, {"s"}, {"name", "s"}}
+var schemaIndexChoices = [][]string{{"name"}, {"n"}, {"name", "n"}, {"tag"}, {"tag", "x"}, {"name", "tag"}, {"x"}, {"s"}, {"name", "s"}, {"tag", "t2"}, {"tag", "t2"}}
 var clientIndexChoices = [][]CKey{{ck("name")}, {ck("tag")}, {ck("n")}, {ckk("m", "k1")}, {ckk("m", "k1"), ck("n")}, {ck("x")},
-	{ck("name"), ckk("m", "k2")}, {ck("tag"), ck("x")}, {ckk("m", "k1"), ckk("m", "k2")}, {ck("s")}, {ck("m")}, {ck("s"), ck("n")}}
+	{ck("name"), ckk("m", "k2")}, {ck("tag"), ck("x")}, {ckk("m", "k1"), ckk("m", "k2")}, {ck("s")}, {ck("m")}, {ck("s"), ck("n")}, {ck("tag"), ck("t2")}, {ck("t2"), ckk("m", "k1")}}
 
 // wholeCollection: the spec has a set or map column used without a key
 func wholeCollection(sp ISpec) bool {
@@ -146,6 +147,8 @@ func idxValOf(spec ISpec, row Row) string {
 		case v.K == 'o' && c.Key == nil:
 			if v.O != nil {
 				parts = append(parts, v.O.Key())
+			} else if len(spec.Cols) > 1 {
+				parts = append(parts, "-") // an unset optional is a component of the tuple like any other
 			}
 		case v.K == 'M' && c.Key != nil:
 			val := c.Zero
@@ -202,6 +205,7 @@ func genC05Row(rng *rand.Rand) Row {
 		"name": VA(AS(names[rng.Intn(len(names))])),
 		"n":    VA(AI(int64(rng.Intn(3)))),
 		"tag":  VO(tags[rng.Intn(3)]),
+		"t2":   VO(tags[rng.Intn(3)]),
 		"x":    VO(xs[rng.Intn(3)]),
 		"m":    &Value{K: 'M', M: m},
 		"s":    &Value{K: 'S', S: s},
@@ -690,11 +694,10 @@ func c05History(r *Run, cfg idxConfig, batches [][]RowOpJ, stream string) bool {
 		for si := range cfg.specs {
 			mg := map[string][]string{}
 			for _, e := range st.Cache.Ixs[si] {
-				var key []Atom
+				// the key is only a label here (groups are compared without their keys)
 				var us []string
-				mustUnmarshal(e[0], &key)
 				mustUnmarshal(e[1], &us)
-				mg[atomsKey(key)] = us
+				mg[string(e[0])] = us
 			}
 			if g := groupsCanon(mg, false); g != impl[bi].groups[si] {
 				r.Violation(stream, caseJSON, impl[bi].groups[si], g, false,
